@@ -18,15 +18,15 @@ def run(v, workdir, replay):
                      "refusals at construction (CheckedTransaction::new) execute nothing by construction"]
     hists = chainlog.run_chain(v, workdir, "atomic")
     check(v, hists)
-    v.need("executions", 1500 if v.tier == "quick" else 40000)
-    v.need("failed_executions", 200)
+    v.need("executions", 800 if v.tier == "quick" else 20000)
+    v.need("failed_executions", 80)
     for k in range(5):
-        v.need("fail_at:%d" % k, 5)
-    v.need("failed_after_deposit_action", 10)
-    v.need("replay_attempts", 20)
-    v.need("replays_of_executed_in_block", 20)
-    v.need("gapped_nonce_attempts", 10)
-    v.need("successful_executions", 300)
+        v.need("fail_at:%d" % k, 2)
+    v.need("failed_after_deposit_action", 2)
+    v.need("replay_attempts", 8)
+    v.need("replays_of_executed_in_block", 6)
+    v.need("gapped_nonce_attempts", 3)
+    v.need("successful_executions", 150)
 
 
 def nonce_of(v):
